@@ -3,15 +3,24 @@
 Run time: every registered algorithm that is deterministic (no randomness, or an explicit random_state) is run
 (a) twice in one process, (b) in a fresh process, (c) under several OpenMP thread counts, (d) after a history of
 earlier fits / set_params on the same object versus a freshly constructed estimator.
+(e) static tie for (d): harness/translators/fitstate.py re-extracts from every estimator class which attributes can carry
+information from an earlier fit (stale reads, constructor-assigned attributes overwritten and read back, stale outputs)
+into Gen/FitState.v; Props/C16.v proves on an abstract estimator that an empty verdict implies refit = fresh fit for ALL
+histories, and pins the reviewed exceptions. The whole-object state probe below (every attribute of __dict__ after
+bipartite -> square, square -> bipartite and tiny -> target histories) and the GNN validation-split refit are the search
+that produces a concrete input when that obligation breaks.
 Theorem side: Props/C16.v (interleaving semantics of prange loops, obligations over the loops and the randomness
-call sites re-extracted from the source on every run)."""
+call sites re-extracted from the source on every run; fit-state noninterference)."""
 from .. import cases
 from ..compare import compare
 from ..impl import Impl
 
-GEN_FILES = ['Prange.v']
+GEN_FILES = ['Prange.v', 'FitState.v']
 # these use the global NumPy generator and have no seed parameter: "same seed" does not apply (not in the quantifier)
 UNSEEDED_RANDOM = ('KCenters',)
+# ... but their fit HISTORY is in the quantifier: for the history cases the global NumPy generator is seeded right before
+# every fit (np.random.seed), on the refitted and on the fresh estimator alike
+NP_SEEDED = ('KCenters',)
 LOUVAIN_FAMILY = ('Louvain', 'Leiden', 'LouvainHierarchy', 'LouvainIteration', 'LouvainEmbedding')
 
 
@@ -109,14 +118,20 @@ def run(ctx, scratch):
                 if rep == 0 and len(ctx.samples) < 6:
                     ctx.sample(dict(name=name, family=fam, m=spec, opts=opts))
         # history sweep: contrasting earlier inputs (tiny / disconnected / connected / bipartite) before the target fit
-        for name in names:
+        hist_names = sorted(set(names) | {n for n in desc if base_name(n) in NP_SEEDED})
+        for name in hist_names:
             d = desc[name]
             if not _is_class(name, desc) or d['seeds'] == 'sources':
                 continue
+            np_seeded = base_name(name) in NP_SEEDED
             for kind0 in ('tiny', 'disconnected', 'connected', 'bip'):
                 for rep in range(1 if quick else 3):
                     spec, opts, fam = prepare(rng, name, d, nmax)
-                    a = main.call('registry', 'run', dict(name=name, m=spec, opts=opts), timeout=60)
+                    np_seed = rng.randrange(1000) if np_seeded else None
+                    if np_seeded:
+                        a = main.call('c16', 'run_seeded', dict(name=name, m=spec, opts=opts, np_seed=np_seed), timeout=60)
+                    else:
+                        a = main.call('registry', 'run', dict(name=name, m=spec, opts=opts), timeout=60)
                     ctx.traces += 1
                     if 'ok' not in a:
                         continue
@@ -142,14 +157,22 @@ def run(ctx, scratch):
                     if name == 'GNNClassifier':
                         opts0 = cases.gnn_opts(rng, n0)
                     steps = [dict(m=spec0, opts=opts0), dict(m=spec, opts=dict(opts))]
-                    h = main.call('registry', 'run_seq', dict(name=name, steps=steps), timeout=120)
+                    if np_seeded:
+                        h = main.call('c16', 'run_seq_seeded', dict(name=name, steps=steps, np_seed=np_seed), timeout=120)
+                    else:
+                        h = main.call('registry', 'run_seq', dict(name=name, steps=steps), timeout=120)
                     ctx.traces += 1
                     ctx.count(name + ':history_' + kind0, (name, kind0, repr(steps)), True)
                     case = dict(name=name, m=spec, opts=opts, family=fam, earlier=kind0, earlier_m=spec0)
+                    if np_seeded:
+                        case['np_seed'] = np_seed
                     if cases.degenerate(main, name, spec, opts):
                         ctx.margin_dropped += 1
                         case['skip'] = ('emb', 'vec', 'mat', 'ivec', 'labels') if base_name(name) in ('HITS', 'NNClassifier', 'NNLinker') else ('emb',)
                     _cmp(ctx, name, a, h, case, 'refit', 'refit after an earlier fit on a %s input differs from a freshly constructed estimator' % kind0)
+        _state_probes(ctx, main, desc, nmax, quick)
+        _gnn_validation(ctx, main, nmax, quick)
+        _static_facts(ctx)
     finally:
         for w in workers.values():
             w.close()
@@ -158,13 +181,143 @@ def run(ctx, scratch):
                 'counts %s (prange kernels; all algorithms in the thorough tier), fit histories (1-3 earlier fits on other inputs) '
                 'vs fresh estimator; explicit random_state with shuffle_nodes=True for the Louvain family; distinct by '
                 '(algorithm, input, arguments, mode)' % threads)
+    ctx.rule += ('; whole-object state probe: every attribute of __dict__ (presence, None-ness, type, shape, booleans) after '
+                 'bipartite->square, square->bipartite and tiny->target histories vs a fresh estimator, every registered '
+                 'estimator class (KCenters with np.random.seed before each fit); GNNClassifier refit with a validation split')
     ctx.assumptions = ['real thread interleavings are sampled, not enumerated; the for-all over interleavings is the Coq theorem on the model',
                        'KCenters (and the random options of Propagation/Closeness/Spring/ForceAtlas) draw from the global NumPy generator and have no seed parameter: outside the quantifier',
                        'identical = exact for integers and partitions, 1e-12 relative for floats']
 
 
+def _state_probes(ctx, main, desc, nmax, quick):
+    """Search for the static obligation fit_state_reviewed: the WHOLE estimator after a history vs a fresh one."""
+    rng = ctx.rng
+    for name in sorted(desc):
+        d = desc[name]
+        if not _is_class(name, desc) or d['seeds'] == 'sources' or name == 'GNNClassifier':
+            continue
+        kinds = [k for k in d['kinds'] if k != 'bip']
+        plans = [('tiny', None, None)]
+        if 'bip' in d['kinds'] and kinds:
+            plans += [('bip_then_square', 'bip', kinds[0]), ('square_then_bip', kinds[0], 'bip')]
+        for plan, k0, k1 in plans:
+            for rep in range(1 if quick else 3):
+                if plan == 'tiny':
+                    spec, opts, fam = prepare(rng, name, d, nmax)
+                    spec0 = dict(shape=[3, 3], coo=[[0, 1, 1], [1, 0, 1], [1, 2, 1], [2, 1, 1]], dtype='int', fmt='csr')
+                    n0 = 3
+                else:
+                    spec, nr, nc, fam = cases.make_matrix(rng, 'symconn' if k1 == 'sym' else k1, nmax)
+                    opts = cases.make_opts(rng, d, nr, nc, k1 == 'bip')
+                    if d['seeded']:
+                        opts.setdefault('params', {})['random_state'] = rng.choice([0, 1, 42])
+                    spec0, n0, _, _ = cases.make_matrix(rng, 'symconn' if k0 == 'sym' else k0, nmax)
+                opts0 = {'params': dict(opts.get('params', {}))}
+                if d['seeds'] in ('weights', 'values'):
+                    opts0['seeds'] = {'all': {'dict': {'0': 1}}}
+                elif d['seeds'] == 'labels':
+                    opts0['seeds'] = {'all': {'dict': {'0': 0, '1': 1}}}
+                elif d['seeds'] == 'pos_init':
+                    opts0['pos_init'] = [[rng.uniform(-1, 1), rng.uniform(-1, 1)] for _ in range(n0)]
+                steps = [dict(m=spec0, opts=opts0), dict(m=spec, opts=dict(opts))]
+                np_seed = rng.randrange(1000)
+                r = main.call('c16', 'state_probe', dict(name=name, steps=steps, np_seed=np_seed), timeout=120)
+                ctx.traces += 2
+                ctx.count(name + ':state_' + plan, (name, plan, repr(steps)), True)
+                if 'ok' not in r:
+                    continue
+                r = r['ok']
+                case = dict(name=name, m=spec, opts=opts, family=fam, earlier=plan, earlier_m=spec0, np_seed=np_seed)
+                if r['fresh_err'] is not None:
+                    continue        # the target fit is not a valid call: outside the quantifier
+                if r['hist_err'] is not None:
+                    ctx.violation(name, 'refit after an earlier fit (%s) raises %s, a fresh estimator does not' % (plan, r['hist_err']),
+                                  case=case, entry=name, kind='state', attr='<raises>', observed=r['hist_err'])
+                    continue
+                for attr, what, detail in r['diff'][:3]:
+                    ctx.violation(name, 'attribute %s of the refitted estimator (%s history) differs from a fresh estimator: %s, %s'
+                                  % (attr, plan, what, detail), case=case, entry=name, kind='state', attr=attr, observed=detail)
+
+
+def _gnn_validation(ctx, main, nmax, quick):
+    """GNNClassifier: fit with a validation split, refit from scratch (reinit=True) on another graph vs fresh classifier."""
+    rng = ctx.rng
+    for rep in range(4 if quick else 12):
+        spec0, n0, _, _ = cases.make_matrix(rng, 'symconn', nmax, nmin=6)
+        if rep % 2 == 0:
+            # same number of nodes: a surviving mask goes unnoticed by shapes
+            spec, n = None, None
+            for _ in range(50):
+                spec, n, _, _ = cases.make_matrix(rng, 'symconn', nmax, nmin=6)
+                if n == n0:
+                    break
+            if n != n0:
+                spec, n = spec0, n0
+        else:
+            spec, n, _, _ = cases.make_matrix(rng, 'symconn', nmax, nmin=6)
+        o0, o = cases.gnn_opts(rng, n0), cases.gnn_opts(rng, n)
+        args = dict(m0=spec0, m=spec, o0=dict(features=o0['features'], labels=o0['seeds']['all']['array']),
+                    o=dict(features=o['features'], labels=o['seeds']['all']['array']),
+                    validation0=rng.choice([0.3, 0.5, 0.7]), validation=rng.choice([0.3, 0.5]), rs0=rng.randrange(100), rs=rng.randrange(100))
+        r = main.call('c16', 'gnn_validation', args, timeout=120)
+        ctx.traces += 2
+        ctx.count('GNNClassifier:state_validation', ('gnn_validation', repr(args)), True)
+        if 'ok' not in r:
+            continue
+        r = r['ok']
+        case = dict(name='GNNClassifier', family='gnn_validation', **args)
+        if r['hist_err'] is not None:
+            ctx.violation('GNNClassifier', 'refit with reinit=True and a validation split raises after an earlier fit: ' + r['hist_err'],
+                          case=case, entry='GNNClassifier', kind='state', attr='val_mask', observed=r['hist_err'])
+            continue
+        for attr, what, detail in r['diff'][:3]:
+            ctx.violation('GNNClassifier', 'refit with reinit=True and a validation split differs from a fresh classifier on %s: %s'
+                          % (attr, detail[:300]), case=case, entry='GNNClassifier', kind='state', attr=attr, observed=detail[:300])
+
+
+def _static_facts(ctx):
+    """What the static side saw on this run (Gen/FitState.v is generated from the same analysis)."""
+    import os
+    import re
+    from ..common import COQ
+    from ..translate import TranslateError
+    from ..translators import fitstate
+    try:
+        facts, skipped, assumed, accumulators, delegations = fitstate.analyse()
+    except (TranslateError, SyntaxError, OSError, KeyError, IndexError, AttributeError, ValueError, TypeError) as e:
+        ctx.extra['fit_state_static'] = dict(error=str(e))
+        return
+    flagged = []
+    for f in facts:
+        flagged += [[f['cls'], a, 'stale_read'] for a in f['stale_reads']]
+        flagged += [[f['cls'], a, 'config_overwritten_read_first'] for a, b in f['over'] if b]
+        flagged += [[f['cls'], a, 'stale_output'] for a in f['stale_outputs']]
+    # entries of this run that the reviewed literals of Props/C16.v do not contain (named, so that a broken obligation says why)
+    try:
+        src = open(os.path.join(COQ, 'Props', 'C16.v')).read()
+        src = src[src.index('Theorem fit_state_reviewed'):]
+        reviewed = set(re.findall(r'\("([^"]+)",\s*"([^"]+)"\)', src))
+        reviewed3 = set(re.findall(r'\("([^"]+)",\s*"([^"]+)",\s*"([^"]+)"\)', src))
+    except (OSError, ValueError):
+        reviewed, reviewed3 = set(), set()
+    acc = {tuple(x) for x in accumulators}
+    unreviewed = [x for x in flagged if (x[0], x[1]) not in reviewed and (x[0], x[1]) not in acc]
+    unreviewed += [[a, b, 'accumulator'] for a, b in accumulators if (a, b) not in reviewed]
+    unreviewed += [[a, b, 'delegation ' + m] for a, b, m in delegations if (a, b, m) not in reviewed3]
+    if unreviewed:
+        msg = 'fit-state entries not in the reviewed lists of fit_state_reviewed: ' + '; '.join('%s.%s (%s)' % tuple(x) for x in unreviewed)
+        ctx.notes.append(msg)
+        if ctx.proof_broken:
+            ctx.proof_broken.append(msg)
+    ctx.extra['fit_state_static'] = dict(
+        classes=len(facts), config_attributes=sum(len(f['config']) for f in facts),
+        config_overwritten=sum(len(f['over']) for f in facts), flagged=flagged, unreviewed=unreviewed,
+        accumulators=[list(x) for x in accumulators], delegations=[list(x) for x in delegations],
+        entry_assumptions=[list(x) for x in assumed], not_analysed_external_base=skipped)
+
+
 def _is_class(name, desc):
-    return name in _CLASS_CACHE or _CLASS_CACHE.setdefault(name, not (name[0].islower()))
+    return _CLASS_CACHE.setdefault(name, not (name[0].islower()))
 
 
 _CLASS_CACHE = {}
